@@ -33,6 +33,7 @@ OBLIGATIONS = [
     "Grog.C03.no_command_start_under_cancelled_context",
     "Grog.C03.command_only_after_all_dependencies",
     "Grog.C03.composed_no_command_start_after_cancel",
+    "Grog.C03.every_command_needs_a_worker",
     "Grog.C03.exec_at_most_once",
     "Grog.C03.exec_more_than_once_witness_old",
 ]
